@@ -121,6 +121,12 @@ func (ft *FT) define(prefix string, s Sort, body string) string {
 	}
 	ft.n++
 	name := fmt.Sprintf("%s!%d", sanitize(prefix), ft.n)
+	if s != SBool && strings.HasPrefix(body, "(ite ") {
+		// a named constant instead of a macro: macros are expanded before
+		// pattern matching and "ite" is not allowed inside quantifier patterns
+		fmt.Fprintf(&ft.decls, "(declare-const %s %s)\n(assert (= %s %s))\n", name, s, name, body)
+		return name
+	}
 	fmt.Fprintf(&ft.decls, "(define-fun %s () %s %s)\n", name, s, body)
 	return name
 }
